@@ -186,15 +186,5 @@ func VF_NodeMessage() {
 	if perr == nil {
 		vf.Record("accepted", ev, roundID, sender)
 	}
-	// C18, two steps: whatever an accepted opening proposal registered (it is not signature-checked), the next message of
-	// that round naming a registered participant as its sender must be handled without a crash (an uncaught panic on this
-	// path is reported as nopanic by the engine).
-	if ev == vfEvInit && perr == nil && n >= 2 {
-		fargs := state_machines.VFRequest("event_sig_proposal_confirm_by_participant", 0)
-		fdata, _ := json.Marshal(fargs[0])
-		follow := storage.Message{ID: "id2", DkgRoundID: roundID, Event: "event_sig_proposal_confirm_by_participant", Data: fdata,
-			Signature: vf.OpaqueBytes("follow.sig"), SenderAddr: state_machines.VFUser(1)}
-		_ = e.node.ProcessMessage(follow)
-	}
 	vf.Assert("witness", false)
 }
